@@ -270,4 +270,126 @@ theorem scpiLex_ProgramHeader_ref (buf : Lexer.Bytes) (n : Nat) (tok : CTok) :
   simp at *
   lexc_close
 
+/-! ### expression -/
+
+theorem scpiLex_ProgramExpression_ref (buf : Lexer.Bytes) (n : Nat) (tok : CTok) :
+    scpiLex_ProgramExpression (st buf n) tok = res buf (Lexer.lexExpression buf n) := by
+  have hg := skipMany_ge buf (n + 1) Lexer.isProgramExpression
+  simp only [scpiLex_ProgramExpression, Lexer.lexExpression]
+  by_cases hlt : n < buf.length
+  · by_cases hlt1 : Lexer.skipMany buf (n + 1) Lexer.isProgramExpression < buf.length
+    · simp [iseos_in _ _ hlt, ischr_in _ _ _ hlt, peekP_in _ _ _ hlt, iseos_in _ _ hlt1, ischr_in _ _ _ hlt1, peekP_in _ _ _ hlt1,
+        lexc_cls, lexc_ref, uc, res, tk, Lexer.mkTok]
+      lexc_close
+    · have hge1 := Nat.le_of_not_lt hlt1
+      simp [iseos_in _ _ hlt, ischr_in _ _ _ hlt, peekP_in _ _ _ hlt, iseos_out _ _ hge1, peekP_out _ _ _ hge1,
+        lexc_cls, lexc_ref, uc, res, tk, Lexer.mkTok]
+      lexc_close
+  · have hge : buf.length ≤ n := Nat.le_of_not_lt hlt
+    simp [iseos_out _ _ hge, peekP_out _ _ _ hge, lexc_ref, res, tk, Lexer.mkTok]
+
+/-! ### strings -/
+
+/-- the quote loop goes on at offset `n`: an ordinary 7-bit character, or a doubled quote -/
+def quoteGo (buf : Lexer.Bytes) (q : UInt8) (n : Nat) : Bool :=
+  match buf[n]? with
+  | none => false
+  | some b => (Lexer.isAscii7 b && b != q) || (b == q && Lexer.peekP buf (n + 1) (· == q))
+
+def quoteStep (buf : Lexer.Bytes) (q : UInt8) (n : Nat) : Nat :=
+  match buf[n]? with
+  | none => n + 1
+  | some b => if Lexer.isAscii7 b && b != q then n + 1 else n + 2
+
+theorem skipQuote_eq (buf : Lexer.Bytes) (q : UInt8) (f n : Nat) :
+    Lexer.skipQuote buf q f n =
+      (loopM (L := Unit) (ρ := Unit) (quoteGo buf q) (quoteStep buf q) (fun _ => none) (fun _ _ => ()) f n ()).1 := by
+  induction f generalizing n with
+  | zero => rfl
+  | succ f ih =>
+    simp only [Lexer.skipQuote, loopM, quoteGo, quoteStep]
+    by_cases hlt : n < buf.length
+    · simp only [List.getElem?_eq_getElem hlt]
+      by_cases h1 : (Lexer.isAscii7 buf[n] && buf[n] != q) = true
+      · simp [h1, ih]
+      · by_cases h2 : (buf[n] == q) = true
+        · by_cases h3 : Lexer.peekP buf (n + 1) (· == q) = true
+          · simp [h1, h2, h3, ih]
+          · simp [h1, h2, h3]
+        · simp [h1, h2]
+    · simp [List.getElem?_eq_none (Nat.le_of_not_lt hlt)]
+
+theorem quote_hg (buf : Lexer.Bytes) (q : UInt8) (k : Nat) (hk : quoteGo buf q k = true) : k < buf.length ∧ k < quoteStep buf q k := by
+  simp only [quoteGo, quoteStep] at *
+  cases hb : buf[k]? with
+  | none => simp [hb] at hk
+  | some b =>
+    have : k < buf.length := by
+      by_cases h : k < buf.length
+      · exact h
+      · simp [List.getElem?_eq_none (Nat.le_of_not_lt h)] at hb
+    refine ⟨this, ?_⟩
+    simp only []
+    split <;> omega
+
+theorem skipQuote_ge (buf : Lexer.Bytes) (q : UInt8) (f m : Nat) : m ≤ Lexer.skipQuote buf q f m := by
+  rw [skipQuote_eq]
+  exact loopM_ge _ _ _ _ (fun k hk => Nat.le_of_lt (quote_hg buf q k hk).2) f m ()
+
+set_option linter.unusedSimpArgs false in
+@[lexc_ref] theorem skipQuoteProgramData_ref (buf : Lexer.Bytes) (n : Nat) (k : Int) (h1 : -128 ≤ k) (h2 : k ≤ 127) :
+    skipQuoteProgramData (st buf n) k = st buf (Lexer.skipQuote buf (uc k) (buf.length - n + 1) n) := by
+  simp only [skipQuoteProgramData, st_buf]
+  rw [whileC_jump (c := quoteGo buf (uc k)) (g := quoteStep buf (uc k)) (e := fun _ => none) (upd := fun _ _ => ()) (buf := buf)]
+  case ht =>
+    intro m l
+    simp only [tripC, quoteGo, quoteStep]
+    by_cases hlt : m < buf.length
+    · by_cases hlt1 : m + 1 < buf.length
+      · cases ha : Lexer.isAscii7 buf[m] <;> by_cases hq : buf[m] = uc k <;>
+          simp [iseos_in _ _ hlt, rd_in _ _ hlt, ischr_in _ _ _ hlt, iseos_in _ _ hlt1, iseos_in0 _ _ hlt1, ischr_in _ _ _ hlt1,
+            peekP_in _ _ _ hlt1, lexc_cls, h1, h2, ha, hq, hlt, mk_st, mk_st_succ, mk_st_succ2]
+      · have hge1 := Nat.le_of_not_lt hlt1
+        cases ha : Lexer.isAscii7 buf[m] <;> by_cases hq : buf[m] = uc k <;>
+          simp [iseos_in _ _ hlt, rd_in _ _ hlt, ischr_in _ _ _ hlt, iseos_out _ _ hge1, iseos_out0 _ _ hge1, peekP_out _ _ _ hge1,
+            lexc_cls, h1, h2, ha, hq, hlt, mk_st, mk_st_succ, mk_st_succ2]
+    · have hge : buf.length ≤ m := Nat.le_of_not_lt hlt
+      simp [iseos_out _ _ hge, List.getElem?_eq_none hge]
+  case hg => exact quote_hg buf (uc k)
+  case hf => omega
+  rw [skipQuote_eq, loopM_fuel _ _ _ _ buf.length (quote_hg buf (uc k)) (buf.length - n + 1) (buf.length + 1) n () (by omega) (by omega)]
+
+set_option linter.unusedSimpArgs false in
+theorem scpiLex_StringProgramData_ref (buf : Lexer.Bytes) (n : Nat) (tok : CTok) :
+    scpiLex_StringProgramData (st buf n) tok = res buf (Lexer.lexString buf n) := by
+  simp only [scpiLex_StringProgramData, Lexer.lexString, skipDoubleQuoteProgramData, skipSingleQuoteProgramData]
+  by_cases hlt : n < buf.length
+  · have hf : buf.length - (n + 1) + 1 = buf.length - n := by omega
+    by_cases hd : buf[n] = 34
+    ·
+      have hg := skipQuote_ge buf 34 (buf.length - n) (n + 1)
+      by_cases hlt1 : Lexer.skipQuote buf 34 (buf.length - n) (n + 1) < buf.length
+      · simp [iseos_in _ _ hlt, iseos_in0 _ _ hlt, ischr_in _ _ _ hlt, peekP_in _ _ _ hlt, lexc_cls, lexc_ref, uc, hf, hd,
+          iseos_in _ _ hlt1, iseos_in0 _ _ hlt1, ischr_in _ _ _ hlt1, peekP_in _ _ _ hlt1, res, tk, Lexer.mkTok]
+        lexc_close
+      · have hge1 := Nat.le_of_not_lt hlt1
+        simp [iseos_in _ _ hlt, iseos_in0 _ _ hlt, ischr_in _ _ _ hlt, peekP_in _ _ _ hlt, lexc_cls, lexc_ref, uc, hf, hd,
+          iseos_out _ _ hge1, iseos_out0 _ _ hge1, peekP_out _ _ _ hge1, res, tk, Lexer.mkTok]
+        try lexc_close
+    · by_cases hs : buf[n] = 39
+      ·
+        have hg := skipQuote_ge buf 39 (buf.length - n) (n + 1)
+        by_cases hlt1 : Lexer.skipQuote buf 39 (buf.length - n) (n + 1) < buf.length
+        · simp [iseos_in _ _ hlt, iseos_in0 _ _ hlt, ischr_in _ _ _ hlt, peekP_in _ _ _ hlt, lexc_cls, lexc_ref, uc, hf, hd, hs,
+            iseos_in _ _ hlt1, iseos_in0 _ _ hlt1, ischr_in _ _ _ hlt1, peekP_in _ _ _ hlt1, res, tk, Lexer.mkTok]
+          lexc_close
+        · have hge1 := Nat.le_of_not_lt hlt1
+          simp [iseos_in _ _ hlt, iseos_in0 _ _ hlt, ischr_in _ _ _ hlt, peekP_in _ _ _ hlt, lexc_cls, lexc_ref, uc, hf, hd, hs,
+            iseos_out _ _ hge1, iseos_out0 _ _ hge1, peekP_out _ _ _ hge1, res, tk, Lexer.mkTok]
+          try lexc_close
+      · simp [iseos_in _ _ hlt, iseos_in0 _ _ hlt, ischr_in _ _ _ hlt, peekP_in _ _ _ hlt, lexc_cls, lexc_ref, uc, hd, hs, res, tk, Lexer.mkTok]
+        try lexc_close
+  · have hge : buf.length ≤ n := Nat.le_of_not_lt hlt
+    simp [iseos_out _ _ hge, iseos_out0 _ _ hge, peekP_out _ _ _ hge, lexc_ref, res, tk, Lexer.mkTok]
+
 end ScpiVerif.Lemmas.LexerC
